@@ -44,6 +44,17 @@ Proof.
   intros Ha Hb Hn Hg Hh E. repeat split; auto. intros i Hi. eapply rd_pointwise; eauto.
 Qed.
 
+Lemma agree_app_l (l1 l2 : list Z) a n : 0 <= a -> 0 <= n -> a + n <= zlen l1 -> agree l1 a (l1 ++ l2) a n.
+Proof.
+  intros Ha Hn Hf. pose proof (zlen_nonneg l2). repeat split; try lia. { rewrite zlen_app. lia. }
+  intros i Hi. rewrite znth_app by lia. destruct (a + i <? zlen l1) eqn:E; [reflexivity|lia].
+Qed.
+Lemma agree_app_r (l1 l2 : list Z) : agree l2 0 (l1 ++ l2) (zlen l1) (zlen l2).
+Proof.
+  pose proof (zlen_nonneg l1). pose proof (zlen_nonneg l2). repeat split; try lia. { rewrite zlen_app. lia. }
+  intros i Hi. rewrite znth_app by lia. destruct (zlen l1 + i <? zlen l1) eqn:E; [lia|]. f_equal. lia.
+Qed.
+
 (* a step that only writes inside [lo, hi) leaves every interval outside untouched *)
 Lemma agree_frame lo hi g g' a n : frame_in lo hi g g' -> 0 <= a -> a + n <= zlen g -> a + n <= lo \/ hi <= a ->
   agree g a g' a n.
